@@ -74,7 +74,12 @@ func c15SweepCount(tier string) int {
 	return len(c15Cases)
 }
 
-const c15Dir = "/canary/arch"
+// c15Dir is the archive directory of the current run (runs are
+// sequential within a process). Its name varies: a directory component
+// may itself look like the index file's name.
+var c15Dir = "/canary/arch"
+
+var c15Dirs = []string{"/canary/arch", "/canary/set.par2.d", "/canary/set.par", "/canary/old set.par2 copy", "/canary/set.par2"}
 
 func c15Disk() (*simdisk.Mem, map[string][]byte) {
 	d := simdisk.NewMem()
@@ -200,6 +205,8 @@ func buildHostileShadow(d *simdisk.Mem, par1Set bool, names []string, contents [
 func containment(r *Run) {
 	t := r.T
 	c15SweepCount(r.Tier)
+	c15Dir = c15Dirs[t.Pick([]int{4, 1, 1, 1, 1}, "archive-dir")]
+	defer func() { c15Dir = "/canary/arch" }()
 	var par1Set bool
 	var names []string
 	hostileAt := map[int]bool{}
@@ -285,8 +292,17 @@ func containment(r *Run) {
 			rep = r.Repair2(w, index, 1, false, nil, SchedSpec{})
 		}
 		r.noPanic(rep)
+		for _, a := range rep.Log {
+			inside := strings.HasPrefix(a.Resolved, c15Dir+"/")
+			if par1Set {
+				inside = filepath.Dir(a.Resolved) == c15Dir
+			}
+			if a.Op == 'W' && !inside && (a.Err == "" || a.Kept > 0) {
+				r.Violate("wrote-outside-root", "%s wrote %s, outside the archive directory %s, for entirely benign declared names %q", rep.Op, a.Resolved, c15Dir, benign)
+			}
+		}
 		if rep.Err != nil || !w.AllIntact() {
-			r.Violate("infra-reference-archive-rejected", "the benign twin of the reference-written archive is not repaired by gopar: %s", rep.errString())
+			r.Violate("benign-twin-not-repaired", "the benign twin (same reference-written archive, harmless names, directory %q) is not repaired by gopar, so nothing can be concluded from the hostile run: %s", c15Dir, rep.errString())
 		}
 		r.Probe("benign-twin-repaired")
 	}
@@ -305,7 +321,21 @@ func containment(r *Run) {
 	}
 	index := buildHostileShadow(d, par1Set, names, contents, shadow)
 	w := &World{Par1: par1Set, Disk: d, Dir: c15Dir, Base: "set", Index: index, S: 4}
-	r.Logf("hostile archive par1=%v names=%q", par1Set, names)
+	// the index path as the caller spells it: absolute, relative to the
+	// archive directory, or relative to its parent (the base directory
+	// must come from the index path, not from the working directory)
+	switch t.Draw(4, "index-spelling") {
+	case 1:
+		d.Cwd = c15Dir
+		index = filepath.Base(index)
+	case 2:
+		d.Cwd = c15Dir
+		index = "./" + filepath.Base(index)
+	case 3:
+		d.Cwd = filepath.Dir(c15Dir)
+		index = filepath.Base(c15Dir) + "/" + filepath.Base(index)
+	}
+	r.Logf("hostile archive par1=%v names=%q index=%q cwd=%s", par1Set, names, index, d.Cwd)
 	outcome := ""
 	for _, op := range []string{"verify", "repair", "repair-dc"} {
 		var res *OpResult
